@@ -505,7 +505,16 @@ pub fn branch_shapes(rng: &mut Rng, n: usize) -> Vec<String> {
 /// Mutates an expression (structure-aware where cheap, textual otherwise).
 pub fn mutate(rng: &mut Rng, e: &str) -> String {
     let chars: Vec<char> = e.chars().collect();
-    match rng.below(12) {
+    match rng.below(13) {
+        12 => {
+            // White space is ordinary literal text: at the very end, the very beginning, or both.
+            let ws = rng.pick_str(&[" ", "\t", "\n", "\u{a0}", "\u{3000}", "  ", "\r\n"]);
+            match rng.below(3) {
+                0 => format!("{}{}", e, ws),
+                1 => format!("{}{}", ws, e),
+                _ => format!("{}{}{}", ws, e, ws),
+            }
+        },
         0 => format!("{{{}}}", e),
         1 => format!("<{}:1>", e),
         2 => format!("<{}:1,1>", e),
@@ -780,4 +789,61 @@ pub fn root_position_shape(rng: &mut Rng) -> String {
     branch(rng, depth, &mut e);
     e.push_str(rng.pick_str(RIGHT));
     e
+}
+
+/// `.`/`..` components nested inside branches at varied positions of their component (alone,
+/// after literal text, before literal text, between wildcards) and nesting depths.
+pub fn nested_semantic(rng: &mut Rng) -> String {
+    const TEMPLATES: &[&str] = &[
+        "@L{@A/@D/@B,@C}@R", "@L<@A/@D/:1,2>@R", "{p,q<r/@D/s>}/t", "@L{@A/@D/@B,@C}", "{@A/@D/@B,@C}@R", "@L?{@A/@D/@B,@C}",
+        "<@A/@D/:2>@B", "@A/{@B,@D/@C}", "{@A,@B}/@D/@C", "@A{@B,@C/@D}", "(?i)@A(?-i)@B{@C,<d/@D/e:2>}", "@A/@D/@B", "@D/@A",
+        "@A/{@D}/@B", "@A/<@D/:1>@B", "@A{x,y}{@B/@D/@C,d}", "@L{{@A/@D/@B}}@R",
+    ];
+    let t = *rng.pick(TEMPLATES);
+    let mut out = String::new();
+    let mut it = t.chars();
+    while let Some(c) = it.next() {
+        if c == '@' {
+            match it.next() {
+                Some('D') => out.push_str(rng.pick_str(&["..", ".", "..", "...", ".a"])),
+                Some('A') => out.push_str(rng.pick_str(&["a", "b", "src", "x*", "金"])),
+                Some('B') => out.push_str(rng.pick_str(&["c", "b", "*.rs", "y"])),
+                Some('C') => out.push_str(rng.pick_str(&["d", "e/f", "*"])),
+                Some('L') => out.push_str(rng.pick_str(&["", "a", "x/a", "ab", "?"])),
+                Some('R') => out.push_str(rng.pick_str(&["", "e", "/t", "?", ""])),
+                Some(o) => {
+                    out.push('@');
+                    out.push(o);
+                },
+                None => out.push('@'),
+            }
+        }
+        else {
+            out.push(c);
+        }
+    }
+    out
+}
+
+/// Repetitions whose sub-glob begins or ends — directly or through nested branches — with a
+/// boundary, where the inner branch has several tokens: the shapes on which the "boundaries
+/// become adjacent once the body repeats" rule depends.
+pub fn nested_repetition_edges(rng: &mut Rng) -> String {
+    const START: &[&str] = &["/", "", "**/", "/", "a"];
+    const MID: &[&str] = &["a", "b", "a*", "", "x/y"];
+    const INNER_BODY: &[&str] = &["b/", "b", "/b", "b/**", "**/b", "b/c/", "*"];
+    const BNDS: &[&str] = &[":2", ":1,", ":1,2", "", ":0,1", ":3", ":1"];
+    fn inner(rng: &mut Rng, depth: usize) -> String {
+        let body = if depth > 0 && rng.chance(1, 3) { inner(rng, depth - 1) } else { rng.pick_str(INNER_BODY).to_string() };
+        match rng.below(4) {
+            0 => format!("{{c,<{}{}>}}", body, rng.pick_str(BNDS)),
+            1 => format!("{{{},c/}}", body),
+            _ => format!("<{}{}>", body, rng.pick_str(BNDS)),
+        }
+    }
+    let (l, r) = *rng.pick(&[("", ""), ("x", ""), ("", "y"), ("x", "/y"), ("x/", "")]);
+    let inn = inner(rng, 2);
+    let at_end = rng.chance(2, 3);
+    let body = if at_end { format!("{}{}{}", rng.pick_str(START), rng.pick_str(MID), inn) } else { format!("{}{}{}", inn, rng.pick_str(MID), rng.pick_str(&["/", "", "/**", "a"])) };
+    format!("{}<{}{}>{}", l, body, rng.pick_str(BNDS), r)
 }
